@@ -108,7 +108,8 @@ def gen_case(rng, tier, pid, n):
                     deps = [rng.choice(present) for _ in range(nd)]
                     if nd >= 2 and rng.random() < 0.3:
                         deps[1] = deps[0]
-                    fact = rng.choice(["1.0", "-2.0", "-k[0]", "2.0*k[0]", "1e-3", "-1.5e-2*zeta", "0.5+0.5"])
+                    fact = rng.choice(["1.0", "-2.0", "-k[0]", "2.0*k[0]", "1e-3", "-1.5e-2*zeta", "0.5+0.5", "-k[0] + zeta", "-2.0 + k[0]",
+                                       "-1.0 - zeta", "1.0 - k[0]", "-k[0]*2.0 + 1e-3"])
                     terms.append((fact, deps))
                 mods.append((tgt, terms))
     ratemod = {}
